@@ -155,6 +155,8 @@ struct Parsed {
     bits: Vec<bool>,
     /// the private `is_line_continuation` flag of every buffer character (read from the lexer's `Debug` output)
     lcs: Vec<bool>,
+    /// `location.range` of every TYPED character of the buffer, in buffer order
+    typed_ranges: Vec<(usize, usize, String)>,
     /// exit status and standard output of every executed alias / unalias command
     results: Vec<(i32, Vec<u8>)>,
     /// the alias table at the end, sorted by name
@@ -193,12 +195,43 @@ fn collect_chains(list: &yash_syntax::syntax::List, out: &mut Vec<Vec<String>>) 
     }
 }
 
+/// An input that hands the script to the lexer in pieces of `k` characters (not line by line): the lexer then has to
+/// read more input while the last character of its buffer comes out of an alias (`LexerCore::next_index` follows
+/// `Source::Alias { original, .. }`), which a line-oriented input only causes after `Lexer::reset`.
+struct Chunked {
+    chunks: std::collections::VecDeque<String>,
+}
+
+impl Chunked {
+    fn new(code: &str, k: usize) -> Self {
+        let cs: Vec<char> = code.chars().collect();
+        Chunked { chunks: cs.chunks(k.max(1)).map(|c| c.iter().collect()).collect() }
+    }
+}
+
+impl yash_env::input::Input for Chunked {
+    async fn next_line(&mut self, _context: &yash_env::input::Context) -> yash_env::input::Result {
+        Ok(self.chunks.pop_front().unwrap_or_default())
+    }
+}
+
 fn real_parse(es: &[Entry], line: &str, budget: usize, exec: bool) -> Parsed {
+    real_parse_with(es, line, budget, exec, None)
+}
+
+#[allow(deprecated)]
+fn real_parse_with(es: &[Entry], line: &str, budget: usize, exec: bool, chunk: Option<usize>) -> Parsed {
     let (mut env, state) = new_env(es);
     let mut results: Vec<(i32, Vec<u8>)> = vec![];
     let left = Cell::new(budget);
-    let mut lexer = Lexer::with_code(line);
+    // three ways to make the lexer: the convenience constructor, the (deprecated) lexer `Config`, `from_memory`
+    let mut lexer = match chunk {
+        Some(k) => Lexer::config().input(Box::new(Chunked::new(line, k))),
+        None if exec => Lexer::with_code(line),
+        None => Lexer::from_memory(line, Source::Unknown),
+    };
     let mut printed = Some(vec![]);
+    let mut typed_ranges: Vec<(usize, usize, String)> = vec![];
     let mut chains = vec![];
     let mut names: Vec<String> = env.aliases.iter().map(|e| e.0.name.clone()).collect();
     let mut rounds = 0usize;
@@ -208,7 +241,15 @@ fn real_parse(es: &[Entry], line: &str, budget: usize, exec: bool) -> Parsed {
     let mut lcs: Vec<bool> = vec![];
     let mut push_origins = |lexer: &Lexer, origins: &mut Vec<Vec<String>>| {
         for i in 0..lexer.index() {
-            origins.push(chain_of(&lexer.location_range(i..i + 1)));
+            let loc = lexer.location_range(i..i + 1);
+            if !matches!(&*loc.code.source, Source::Alias { .. }) {
+                // the character sits, in its own code, at the range its location names
+                let at = loc.code.value.borrow().chars().nth(loc.range.start).map(|c| c.to_string());
+                let here = lexer.source_string(i..i + 1);
+                let ok = loc.range.end == loc.range.start + 1 && at.as_deref() == Some(here.as_str());
+                typed_ranges.push((loc.range.start, loc.range.end, if ok { String::new() } else { here }));
+            }
+            origins.push(chain_of(&loc));
             bits.push(lexer.is_after_blank_ending_alias(i));
         }
         if exec {
@@ -288,7 +329,7 @@ fn real_parse(es: &[Entry], line: &str, budget: usize, exec: bool) -> Parsed {
         ka.cmp(&kb)
     });
     let table = if t.is_empty() { "-".to_string() } else { t.join(",") };
-    Parsed { printed, text, origins, bits, lcs, chains, results, table, names }
+    Parsed { printed, text, origins, bits, lcs, typed_ranges, chains, results, table, names }
 }
 
 /// run-length form of the per-character origins: `<count>x<chain>` per maximal run, chain = hex names
@@ -356,7 +397,81 @@ fn blank_ranges() -> String {
     out.join(",")
 }
 
+/// `Rec::{is_alias_substituted, map, unwrap}`, `EmptyGlossary::look_up`, `Config::default` (coverage triage, session 4):
+/// one `take_token_manual(true)` on the first token of the script, against what the token itself says — it is replaced
+/// iff it is a `Token(_)` whose literal text names an alias (first token: command position, empty origin chain).
+fn rec_api_oracle(es: &[Entry], line: &str) -> Option<String> {
+    use yash_syntax::parser::Rec;
+    use yash_syntax::parser::lex::TokenId;
+    use yash_syntax::syntax::MaybeLiteral as _;
+    if yash_syntax::alias::EmptyGlossary.look_up("a").is_some() {
+        return Some("EmptyGlossary-defines-an-alias".into());
+    }
+    let set: yash_syntax::alias::AliasSet = {
+        let mut s = yash_syntax::alias::AliasSet::new();
+        for e in es {
+            if s.get(e.name.as_str()).is_none() {
+                s.insert(HashEntry::new(e.name.clone(), e.value.clone(), e.global, Location::dummy("def")));
+            }
+        }
+        s
+    };
+    // what the first token is, without aliases
+    let mut l0 = Lexer::with_code(line);
+    let first = Parser::new(&mut l0).take_token_raw().now_or_never()?.ok()?;
+    let expect = matches!(first.id, TokenId::Token(_))
+        && first.word.to_string_if_literal().is_some_and(|n| set.get(n.as_str()).is_some());
+    let text = first.word.to_string();
+    for round in 0..2 {
+        let mut l1 = Lexer::with_code(line);
+        let mut parser = yash_syntax::parser::Config::default().aliases(&set).input(&mut l1);
+        let rec = parser.take_token_manual(true).now_or_never()?.ok()?;
+        if rec.is_alias_substituted() != expect {
+            return Some(format!("Rec::is_alias_substituted={}-expected-{expect}", rec.is_alias_substituted()));
+        }
+        if round == 0 {
+            match rec.map(|t| Ok(t.word.to_string())) {
+                Ok(Rec::AliasSubstituted) if expect => {}
+                Ok(Rec::Parsed(t)) if !expect && t == text => {}
+                _ => return Some("Rec::map-changes-the-variant-or-the-token".into()),
+            }
+        } else {
+            let r = std::panic::catch_unwind(std::panic::AssertUnwindSafe(|| rec.unwrap().word.to_string()));
+            match r {
+                Err(_) if expect => {}
+                Ok(t) if !expect && t == text => {}
+                _ => return Some("Rec::unwrap-wrong".into()),
+            }
+        }
+    }
+    None
+}
+
+/// `yash_env::alias::is_portable_alias_name` on every one-character string below U+0300 (ranges) and on a few longer ones
+fn portable_names() -> String {
+    let mut out = vec![];
+    let mut start: Option<u32> = None;
+    for n in 0u32..0x300 {
+        let b = char::from_u32(n).is_some_and(|c| yash_env::alias::is_portable_alias_name(&c.to_string()));
+        match (start, b) {
+            (None, true) => start = Some(n),
+            (Some(lo), false) => {
+                out.push(format!("{:x}-{:x}", lo, n - 1));
+                start = None;
+            }
+            _ => {}
+        }
+    }
+    let words = ["", "a", "ab_1", "a b", "a=b", "-x", "A!%,-@_9", "é", "a.b", "a/b", "x\ny"];
+    let bits: String =
+        words.iter().map(|w| if yash_env::alias::is_portable_alias_name(w) { '1' } else { '0' }).collect();
+    format!("{} {bits}", out.join(","))
+}
+
 fn run_case(case: &str) -> (String, String) {
+    if case.trim() == "portable-names" {
+        return (format!("portable {}", portable_names()), "-".into());
+    }
     if case.trim() == "blank-sweep" {
         return (format!("blank {}", blank_ranges()), "-".into());
     }
@@ -388,6 +503,31 @@ fn run_case(case: &str) -> (String, String) {
                 } else {
                     "ok".into()
                 };
+                // (coverage triage, session 4) the same script handed over in pieces of k characters must give the same
+                // buffer, origins, blank-rule bits, commands, table and built-in results; and in BOTH runs the k-th typed
+                // character sits at k..k+1 of the typed code (`next_index` is what numbers the characters read later)
+                if oracle == "ok" {
+                    let k = 1 + (p.text.len() + es.len()) % 4;
+                    let c = real_parse_with(&es, &line, 4000, true, Some(k));
+                    if c.printed != p.printed || c.text != p.text || c.origins != p.origins || c.bits != p.bits
+                        || c.table != p.table || c.results != p.results
+                    {
+                        oracle = format!("FAIL:chunked-input-{k}-differs");
+                    }
+                    // a typed character of the buffer is the character found at its location's range in its location's code
+                    for run in [&p, &c] {
+                        if let Some(r) = run.typed_ranges.iter().find(|r| !r.2.is_empty()) {
+                            if oracle == "ok" {
+                                oracle = format!("FAIL:typed-char-at-{}..{}", r.0, r.1);
+                            }
+                        }
+                    }
+                }
+                if oracle == "ok" {
+                    if let Some(why) = rec_api_oracle(&es, &line) {
+                        oracle = format!("FAIL:{why}");
+                    }
+                }
                 // the private line-continuation flags, on the real code alone: flagged characters are exactly
                 // the two characters of backslash-newline pairs, and one flag per buffer character was found
                 let tc: Vec<char> = p.text.chars().collect();
